@@ -143,12 +143,17 @@ def backends_vs_dense(net, label):
         neq = mac.value("NEQUATIONS")
     except Exception:
         return 0, []
-    yvals = [[0.5 + ((7 * i + 3 * g) % 11) / 8.0 for i in range(neq)] for g in range(3)]
+    # a batch of more systems than there are species (where that stays small): host code that sizes the batch from
+    # the vector length must divide by the number of equations, and only such a batch tells the two apart
+    nsp = mac.value("NSPECIES")
+    ng = nsp + 1 if 3 <= nsp <= 7 else 3
+    yvals = [[0.5 + ((7 * i + 3 * g) % 11) / 8.0 for i in range(neq)] for g in range(ng)]
     if "IDX_TGAS" in mac.text:
-        for yv, T in zip(yvals, (8.0e3, 2.5e4, 1.2e4)):
-            yv[mac.value("IDX_TGAS")] = T
+        for g, yv in enumerate(yvals):
+            yv[mac.value("IDX_TGAS")] = (8.0e3, 2.5e4, 1.2e4)[g % 3]
     base = {"nH": 1e4, "Tgas": 50.0, "zeta": 1.3e-17, "Av": 1.0, "omega": 0.5}
-    plist = [dict(base, Tgas=50.0, nH=1e4, zeta=1.3e-17, mu=-1.0, gamma=-1.0), dict(base, Tgas=220.0, nH=3e5, zeta=5e-16, mu=1.3, gamma=1.6), dict(base, Tgas=15.0, nH=2e3, zeta=2e-18, mu=-1.0, gamma=-1.0)]
+    p3 = [dict(base, Tgas=50.0, nH=1e4, zeta=1.3e-17, mu=-1.0, gamma=-1.0), dict(base, Tgas=220.0, nH=3e5, zeta=5e-16, mu=1.3, gamma=1.6), dict(base, Tgas=15.0, nH=2e3, zeta=2e-18, mu=-1.0, gamma=-1.0)]
+    plist = [p3[g % 3] for g in range(ng)]
     rd = OR.build_and_run(fd, "dense", yvals, plist)
     if "error" in rd:
         return 0, []
@@ -170,14 +175,14 @@ def backends_vs_dense(net, label):
         for g, (a, c) in enumerate(zip(rd["runs"], rb["runs"])):
             for i, (x, y) in enumerate(zip(a["ydot"], c["ydot"])):
                 if not _close(x, y):
-                    bad = ("ydot", f"system {g}{' (mu, gamma left at their defaults)' if g != 1 else ''}: {b} gives ydot[{i}] = {y!r}, dense gives {x!r} for the same state")
+                    bad = ("ydot", f"system {g}{' (mu, gamma left at their defaults)' if g % 3 != 1 else ''}: {b} gives ydot[{i}] = {y!r}, dense gives {x!r} for the same state")
                     break
             if bad:
                 break
             for (r, cc), x in a["jac"].items():
                 y = c["jac"].get((r, cc), 0.0)
                 if not _close(x, y):
-                    bad = ("jac", f"system {g}{' (mu, gamma left at their defaults)' if g != 1 else ''}: {b} gives J[{r}][{cc}] = {y!r}, dense gives {x!r} for the same state")
+                    bad = ("jac", f"system {g}{' (mu, gamma left at their defaults)' if g % 3 != 1 else ''}: {b} gives J[{r}][{cc}] = {y!r}, dense gives {x!r} for the same state")
                     break
             if bad:
                 break
